@@ -26,6 +26,7 @@ type Exec struct {
 	externs          map[string]bool
 	lemmasUsed       map[string]bool
 	id               int
+	prop             string
 }
 
 type sval struct {
@@ -36,26 +37,35 @@ type sval struct {
 }
 
 type Frame struct {
-	x         *Exec
-	fn        *ssa.Function
-	id        int
-	env       map[ssa.Value]Term
-	tuples    map[ssa.Value][]Term
-	allocRef  map[*ssa.Alloc]Term
-	depth     int
-	path      string
-	contract  *Contract
-	entry     *State
-	cur       *State
-	params    map[string]sval
-	rets      []retInfo
-	top       bool
-	stack     []*ssa.Function
-	loops     map[*ssa.BasicBlock]*loopInfo
-	loopOrd   map[*ssa.BasicBlock]int
-	dead      bool
-	rangeComp map[ssa.Value]string
-	callCount map[string]int
+	x            *Exec
+	fn           *ssa.Function
+	id           int
+	env          map[ssa.Value]Term
+	tuples       map[ssa.Value][]Term
+	allocRef     map[*ssa.Alloc]Term
+	depth        int
+	path         string
+	contract     *Contract
+	entry        *State
+	cur          *State
+	params       map[string]sval
+	rets         []retInfo
+	top          bool
+	stack        []*ssa.Function
+	loops        map[*ssa.BasicBlock]*loopInfo
+	loopOrd      map[*ssa.BasicBlock]int
+	dead         bool
+	rangeComp    map[ssa.Value]string
+	callCount    map[string]int
+	block        *ssa.BasicBlock
+	loopMods     map[*loopInfo][]locInfo
+	loopW        map[*loopInfo]Term
+	frameCaller  *Frame
+	frameInstr   ssa.Instruction
+	curInstr     ssa.Instruction
+	loopEntry    map[*loopInfo]*State
+	curLoopEntry *State
+	prop         string
 }
 
 type retInfo struct {
@@ -584,6 +594,7 @@ func (fr *Frame) store(a Addr, v Term, vt types.Type, in ssa.Instruction) {
 			return
 		}
 		comp := memComp(a.elem)
+		fr.checkLoopFrame(comp, a.reg, a.off, 1, in)
 		m := fr.cur.get(comp)
 		fr.cur.set(comp, c.define("st."+comp, compSorts[comp], app("store", m, a.reg, app("store", app("select", m, a.reg), a.off, v))))
 		return
@@ -598,6 +609,7 @@ func (fr *Frame) store(a Addr, v Term, vt types.Type, in ssa.Instruction) {
 		if a.limit != "" && in != nil {
 			fr.oblige("unsafe", fmt.Sprintf("%d-byte access stays inside the slice's capacity", w), in, le(add(off, num(int64(w))), a.limit))
 		}
+		fr.checkLoopFrame("M", reg, off, w, in)
 		u := c.define("stu", "Int", toUnsigned(a.elem, v))
 		if w > 1 {
 			c.fact(app(fmt.Sprintf("bytes%d", w), u))
@@ -827,11 +839,13 @@ func (fr *Frame) run(st *State) {
 			in = joinStates(fr.c(), ins, fmt.Sprintf("%s.b%d", fr.fn.Name(), b.Index))
 		}
 		fr.cur = in
+		fr.block = b
 		if li := fr.loops[b]; li != nil {
 			fr.enterLoop(li)
 		}
 		fr.dead = false
 		for _, ins := range b.Instrs {
+			fr.curInstr = ins
 			fr.instr(ins)
 			if fr.dead {
 				break
@@ -878,14 +892,33 @@ func (fr *Frame) loopClauses(li *loopInfo, kind string) []*Clause {
 		return nil
 	}
 	for _, cl := range fr.contract.Clauses {
-		if cl.Kind == kind && cl.Loop == li.ord {
+		if cl.Kind == kind && cl.Loop == li.ord && fr.x.active(cl) {
 			out = append(out, cl)
 		}
 	}
 	return out
 }
 
+// active: a clause tagged with property ids only exists when one of those properties is being checked
+func (x *Exec) active(cl *Clause) bool {
+	if len(cl.Props) == 0 || x.prop == "" {
+		return true
+	}
+	for _, p := range cl.Props {
+		if p == x.prop {
+			return true
+		}
+	}
+	return false
+}
+
 func (fr *Frame) checkInvariant(li *loopInfo, kind, desc string) {
+	if st, ok := fr.loopEntry[li]; ok {
+		fr.curLoopEntry = st
+	} else {
+		fr.curLoopEntry = fr.cur
+	}
+	defer func() { fr.curLoopEntry = nil }()
 	for _, cl := range fr.loopClauses(li, "hint") {
 		for _, cj := range splitConj(cl.Expr) {
 			fr.proveSpec("hint", fmt.Sprintf("proof hint before %s (loop %d): %s", desc, li.ord, cj.String()), cl, cj, fr.cur, fr.entry, nil)
@@ -954,6 +987,12 @@ func (fr *Frame) enterLoop(li *loopInfo) {
 		}
 	}
 	old := fr.cur
+	if fr.loopEntry == nil {
+		fr.loopEntry = map[*loopInfo]*State{}
+	}
+	fr.loopEntry[li] = old
+	fr.curLoopEntry = old
+	defer func() { fr.curLoopEntry = nil }()
 	fr.cur = old.clone()
 	if mods.all {
 		fr.cur.havocAll(fmt.Sprintf("L%d.%d", fr.id, li.ord))
@@ -963,9 +1002,43 @@ func (fr *Frame) enterLoop(li *loopInfo) {
 		names = append(names, n)
 	}
 	sort.Strings(names)
+	var lmods []locInfo
+	for _, cl := range fr.loopClauses(li, "loopmodifies") {
+		for _, loc := range cl.Locs {
+			saved := fr.cur
+			fr.cur = old
+			lmods = append(lmods, fr.evalLoc(loc, old, fr.loopVars(old)))
+			fr.cur = saved
+		}
+	}
+	if len(lmods) > 0 {
+		if fr.loopMods == nil {
+			fr.loopMods = map[*loopInfo][]locInfo{}
+			fr.loopW = map[*loopInfo]Term{}
+		}
+		fr.loopMods[li] = lmods
+		fr.loopW[li] = old.get("W")
+	}
 	for _, n := range names {
 		if _, ok := compSorts[n]; !ok {
 			continue // never materialised
+		}
+		if len(lmods) > 0 && (n == "M" || n == "MS" || n == "MR" || n == "MB" || n == "MP") {
+			// declared loop frame: only the listed ranges of memory may change (every store in the body is checked)
+			m := old.get(n)
+			cur := m
+			for _, lm := range lmods {
+				if lm.kind != "range" || lm.comp != n {
+					continue
+				}
+				es := elemOfArraySort(compSorts[n])
+				na := c.fresh("hv."+n, es)
+				oldA := app("select", cur, lm.reg)
+				c.assumeRaw(fmt.Sprintf("(assert (forall ((i Int)) (! (=> (or (< i %s) (>= i %s)) (= (select %s i) (select %s i))) :pattern ((select %s i)))))", lm.lo, lm.hi, na, oldA, na))
+				cur = c.define("hv", compSorts[n], app("store", cur, lm.reg, na))
+			}
+			fr.cur.set(n, cur)
+			continue
 		}
 		if n == "W" {
 			nw := c.fresh("W", "Int")
@@ -994,6 +1067,10 @@ func (fr *Frame) enterLoop(li *loopInfo) {
 	for _, cl := range fr.loopClauses(li, "invariant") {
 		t := fr.evalSpecBool(cl.Expr, fr.cur, fr.entry, nil)
 		c.assume(imp(fr.cur.reach, t))
+	}
+	// 4. instances of separately proved arithmetic lemmas
+	for _, cl := range fr.loopClauses(li, "apply") {
+		fr.applyLemma(cl, fr.cur, nil)
 	}
 }
 
@@ -1160,6 +1237,9 @@ func (fr *Frame) instr(in ssa.Instruction) {
 		}
 		fr.env[s] = c.define("phi", sortOf(s.Type()), t)
 	case *ssa.Call:
+		if fr.top && fr.contract != nil && len(fr.contract.AtCalls) > 0 {
+			fr.hintsAtCall(s)
+		}
 		res := fr.call(s, s.Common())
 		if fr.top && fr.contract != nil && len(fr.contract.AtCalls) > 0 {
 			fr.ghostAtCall(s, res)
@@ -1936,7 +2016,7 @@ func (fr *Frame) checkConstructed(ret *ssa.Return) {
 	}
 	sort.Slice(allocs, func(i, j int) bool { return allocs[i].Pos() < allocs[j].Pos() })
 	for _, a := range allocs {
-		if !a.Heap {
+		if !a.Heap || !a.Block().Dominates(ret.Block()) {
 			continue
 		}
 		el := ptrElem(a.Type())
@@ -2042,7 +2122,7 @@ func (fr *Frame) callOrdinal(call *ssa.Call, suffix string) int {
 func (fr *Frame) ghostAtCall(call *ssa.Call, res []Term) {
 	name := calleeName(call.Common())
 	for _, ac := range fr.contract.AtCalls {
-		if !strings.HasSuffix(name, ac.Callee) || fr.callOrdinal(call, ac.Callee) != ac.N {
+		if ac.Hint || !strings.HasSuffix(name, ac.Callee) || fr.callOrdinal(call, ac.Callee) != ac.N {
 			continue
 		}
 		vars := map[string]sval{}
@@ -2083,6 +2163,114 @@ func (fr *Frame) initGhosts() {
 		}
 		if found <= ac.N {
 			specFail("anchor-missing: call %s#%d not found (contract line %d)", ac.Callee, ac.N, ac.Line)
+		}
+	}
+}
+
+// applyLemma assumes an instance of a separately proved arithmetic lemma: apply name(args)
+func (fr *Frame) applyLemma(cl *Clause, st *State, vars map[string]sval) {
+	e := cl.Expr
+	if e.Op != "call" {
+		specFail("apply expects lemma(args) (contract line %d)", cl.Line)
+	}
+	pd, ok := fr.x.e.cf.Ariths[e.Name]
+	if !ok {
+		specFail("unknown arith lemma %s (contract line %d)", e.Name, cl.Line)
+	}
+	fr.x.lemmasUsed[e.Name] = true
+	se := fr.specEnvFor(st, fr.entry, fr.mergeVars(vars), vars == nil)
+	n := *se
+	n.vars = map[string]sval{}
+	n.bound = map[string]bool{}
+	saved := fr.cur
+	fr.cur = st
+	for i, p := range pd.Params {
+		n.vars[p.Name] = mathInt(se.ev(e.Args[i]).t)
+		n.bound[p.Name] = true
+	}
+	n.preferLocals = false
+	t := n.ev(pd.Body).t
+	fr.cur = saved
+	fr.c().assume(imp(st.reach, t))
+}
+
+// loopVars: identifiers usable in a loop's modifies clause (parameters at their entry values)
+func (fr *Frame) loopVars(st *State) map[string]sval {
+	return fr.mergeVars(map[string]sval{})
+}
+
+// checkLoopFrameRange: a bulk write (callee modifies clause, copy, append, syscall) inside a loop with a
+// declared frame must lie within one of its ranges (or in memory allocated after the loop started)
+func (fr *Frame) checkLoopFrameRange(comp string, reg, lo, hi Term, in ssa.Instruction) {
+	if fr.block == nil || len(fr.loopMods) == 0 {
+		return
+	}
+	for li, lmods := range fr.loopMods {
+		if !li.body[fr.block] {
+			continue
+		}
+		var ok []Term
+		for _, lm := range lmods {
+			if lm.kind == "range" && lm.comp == comp {
+				ok = append(ok, and(eq(reg, lm.reg), le(lm.lo, lo), le(hi, lm.hi)))
+			}
+		}
+		ok = append(ok, le(fr.loopW[li], reg), le(hi, lo))
+		fr.oblige("loopframe", fmt.Sprintf("write of a memory range inside loop %d stays within the loop's modifies clause", li.ord), in, or(ok...))
+	}
+}
+
+// loopFrameForbidsComp: a callee that may write all of a memory component cannot be called inside a framed loop
+func (fr *Frame) loopFrameWholeComp(comp string, in ssa.Instruction, what string) {
+	if fr.block == nil || len(fr.loopMods) == 0 {
+		return
+	}
+	for li := range fr.loopMods {
+		if li.body[fr.block] {
+			fr.oblige("loopframe", fmt.Sprintf("%s may write all of %s inside loop %d, which declares a memory frame", what, comp, li.ord), in, "false")
+		}
+	}
+}
+
+// checkLoopFrame: a memory store inside a loop with a declared frame must hit one of its ranges
+func (fr *Frame) checkLoopFrame(comp string, reg, off Term, w int, in ssa.Instruction) {
+	if fr.block == nil || len(fr.loopMods) == 0 {
+		return
+	}
+	for li, lmods := range fr.loopMods {
+		if !li.body[fr.block] {
+			continue
+		}
+		var ok []Term
+		for _, lm := range lmods {
+			if lm.kind == "range" && lm.comp == comp {
+				ok = append(ok, and(eq(reg, lm.reg), le(lm.lo, off), le(add(off, num(int64(w))), lm.hi)))
+			}
+		}
+		// stores into regions allocated after the loop started are always allowed
+		fr.oblige("loopframe", fmt.Sprintf("store inside loop %d stays within the loop's modifies clause", li.ord), in, or(append(ok, le(fr.loopW[li], reg))...))
+	}
+}
+
+// hintsAtCall: proof hints placed right before a call: each is proved where it stands, then assumed.
+func (fr *Frame) hintsAtCall(call *ssa.Call) {
+	name := calleeName(call.Common())
+	for _, ac := range fr.contract.AtCalls {
+		if !ac.Hint || !strings.HasSuffix(name, ac.Callee) || fr.callOrdinal(call, ac.Callee) != ac.N {
+			continue
+		}
+		cl := &Clause{Kind: "hint", Props: ac.Props, Line: ac.Line}
+		if !fr.x.active(cl) {
+			continue
+		}
+		if ac.Assume {
+			fr.x.externs[fmt.Sprintf("ASSUMED (unchecked) in %s before call %s#%d: %s", fr.fn.Name(), ac.Callee, ac.N, ac.Text)] = true
+			t := fr.evalSpecBool(ac.Expr, fr.cur, fr.entry, nil)
+			fr.c().assume(imp(fr.cur.reach, t))
+			continue
+		}
+		for _, cj := range splitConj(ac.Expr) {
+			fr.proveSpec("hint", fmt.Sprintf("proof hint before call %s#%d: %s", ac.Callee, ac.N, cj.String()), cl, cj, fr.cur, fr.entry, nil)
 		}
 	}
 }
